@@ -432,6 +432,7 @@ func (e *CEnv) field(x *CExpr) (Val, error) {
 		t := sel(c.heapGet(e.st, name, sort), base.Term)
 		if !strings.Contains(base.Term, "q.") {
 			c.heapTyped(ft, t)
+			c.closedHeap(e.st, ft, t, 0)
 		}
 		return Val{T: ft, Term: t}, nil
 	}
@@ -475,7 +476,12 @@ func (e *CEnv) index(x *CExpr) (Val, error) {
 		return Val{T: u.Elem(), Term: sel(sel(c.heapGet(e.st, name, sort), app("sl_base", s)), app("+", app("sl_off", s), idx.Term))}, nil
 	case *types.Map:
 		has, val := c.mapRead(e.st, base.T, base.Term, idx.Term)
-		return Val{T: u.Elem(), Term: ite(has, val, c.zero(u.Elem()))}, nil
+		t := ite(has, val, c.zero(u.Elem()))
+		if !strings.Contains(t, "q.") {
+			c.heapTyped(u.Elem(), t)
+			c.closedHeap(e.st, u.Elem(), t, 0)
+		}
+		return Val{T: u.Elem(), Term: t}, nil
 	case *types.Basic:
 		if isString(base.T) {
 			return Val{T: types.Typ[types.Byte], Term: app("sbyte", base.Term, idx.Term)}, nil
@@ -897,6 +903,16 @@ func (e *CEnv) callExpr(x *CExpr) (Val, error) {
 			return Val{}, err
 		}
 		return Val{T: tFloat, Term: c.toFloat(as[0], as[0].Term)}, nil
+	case "truncf":
+		as, err := evalArgs()
+		if err != nil {
+			return Val{}, err
+		}
+		if c.floatsIEEE {
+			return Val{}, fmt.Errorf("truncf() only with floats real")
+		}
+		t := as[0].Term
+		return Val{T: tInt, Term: fmt.Sprintf("(ite (>= %s 0.0) (to_int %s) (- (to_int (- %s))))", t, t, t)}, nil
 	case "floor":
 		as, err := evalArgs()
 		if err != nil {
@@ -906,6 +922,13 @@ func (e *CEnv) callExpr(x *CExpr) (Val, error) {
 			return Val{}, fmt.Errorf("floor() only with floats real")
 		}
 		return Val{T: tInt, Term: app("to_int", as[0].Term)}, nil
+	case "wrap64", "wrapu64", "wrapu32", "wrap32":
+		as, err := evalArgs()
+		if err != nil {
+			return Val{}, err
+		}
+		tt := map[string]types.Type{"wrap64": types.Typ[types.Int64], "wrapu64": types.Typ[types.Uint64], "wrapu32": types.Typ[types.Uint32], "wrap32": types.Typ[types.Int32]}[x.Name]
+		return Val{T: tInt, Term: wrapTo(tt, as[0].Term)}, nil
 	case "imin", "imax":
 		as, err := evalArgs()
 		if err != nil {
@@ -1124,11 +1147,11 @@ func (e *CEnv) addLoc(ms *ModSet, loc *CExpr) error {
 		if err != nil {
 			return err
 		}
-		sl, ok := t.Underlying().(*types.Slice)
-		if !ok {
-			return fmt.Errorf("allElems needs a slice type")
+		et := t
+		if sl, ok := t.Underlying().(*types.Slice); ok {
+			et = sl.Elem()
 		}
-		name, sort := c.elemHeap(sl.Elem())
+		name, sort := c.elemHeap(et)
 		c.heapSorts[name] = sort
 		ms.whole[name] = true
 		return nil
